@@ -1691,3 +1691,172 @@ theorem sendFunc_bound (m : SMode) : ∀ (outs : List (Option SErr)) (r : Nat),
       cases e <;> simp only [sendFunc] <;> (repeat' split) <;> simp_all <;> omega
 
 end GunYu.ClusterSender
+
+namespace GunYu.ClusterRoute
+
+theorem sorted_subset_sublist : ∀ (B A : List Nat), A.Pairwise (· < ·) → B.Pairwise (· < ·) →
+    (∀ a ∈ A, a ∈ B) → A.Sublist B := by
+  intro B
+  induction B with
+  | nil =>
+    intro A _ _ h
+    cases A with
+    | nil => exact List.Sublist.slnil
+    | cons a as => exact absurd (h a (by simp)) List.not_mem_nil
+  | cons b bs ih =>
+    intro A hA hB h
+    cases A with
+    | nil => exact List.nil_sublist _
+    | cons a as =>
+      rw [List.pairwise_cons] at hA hB
+      have ha := h a (by simp)
+      rw [List.mem_cons] at ha
+      cases ha with
+      | inl hab =>
+        subst hab
+        apply List.Sublist.cons_cons
+        apply ih as hA.2 hB.2
+        intro x hx
+        have hx' := h x (by simp [hx])
+        rw [List.mem_cons] at hx'
+        cases hx' with
+        | inl e => have := hA.1 x hx; omega
+        | inr e => exact e
+      | inr hab =>
+        have hba := hB.1 a hab
+        apply List.Sublist.cons
+        apply ih (a :: as) (List.pairwise_cons.mpr hA) hB.2
+        intro x hx
+        have hx' := h x hx
+        rw [List.mem_cons] at hx' hx
+        cases hx' with
+        | inl e =>
+          cases hx with
+          | inl e2 => omega
+          | inr e2 => have := hA.1 x e2; omega
+        | inr e => exact e
+
+/-- ids of the commands of key `k` in a batch, in put order -/
+def idsC (cs : List Cmd) (k : Key) : List Nat := (cs.filter (fun c => c.key == k)).map (·.id)
+
+section
+variable (slotOf : Key → Slot)
+
+/-- every dispatched batch lists, per key, its commands in increasing id (source) order -/
+def BatchesSorted (s : St) : Prop := ∀ b cs, (b, cs) ∈ s.batches → ∀ k, (idsC cs k).Pairwise (· < ·)
+
+theorem idsC_of_sent (cur : List Sent) (k : Key) : idsC (cur.map (·.cmd)) k = idsS cur k := by
+  simp [idsC, idsS, List.filter_map, Function.comp_def]
+
+theorem BatchesSorted_step {s s' : St} {e : Ev} (hi : Inv slotOf s) (hb : BatchesSorted s)
+    (h : step slotOf s e = .ok s') : BatchesSorted s' := by
+  have same : s'.batches = s.batches → BatchesSorted s' := by
+    intro he b cs hm; rw [he] at hm; exact hb b cs hm
+  cases e with
+  | put bid c n =>
+    obtain ⟨_, _, rfl⟩ := stepPut_ok slotOf h
+    exact same rfl
+  | dispatch bid =>
+    obtain ⟨_, rfl⟩ := stepDispatch_ok h
+    intro b cs hm k
+    simp only [List.mem_append, List.mem_singleton, Prod.mk.injEq] at hm
+    cases hm with
+    | inl hm => exact hb b cs hm k
+    | inr hm =>
+      obtain ⟨_, rfl⟩ := hm
+      rw [idsC_of_sent]
+      have := hi.sorted k
+      rw [seqOf, outIds_eq, List.pairwise_append] at this
+      have h2 := this.2.1
+      rw [List.pairwise_append] at h2
+      exact h2.2.1
+  | srv n c asking o =>
+    apply same
+    simp only [step, stepSrv] at h
+    split at h
+    · split at h
+      · unfold stepFirst at h
+        split at h
+        · exact nomatch h
+        · cases o <;> simp only at h <;> (injection h with h; subst h; rfl)
+      · unfold stepChase at h
+        split at h
+        · exact nomatch h
+        · split at h
+          · exact nomatch h
+          split at h
+          · exact nomatch h
+          split at h
+          · exact nomatch h
+          cases o <;> simp only at h <;> (injection h with h; subst h; rfl)
+    · unfold stepChase at h
+      split at h
+      · exact nomatch h
+      · split at h
+        · exact nomatch h
+        split at h
+        · exact nomatch h
+        split at h
+        · exact nomatch h
+        cases o <;> simp only at h <;> (injection h with h; subst h; rfl)
+  | recv bid ok =>
+    apply same
+    simp only [step, stepRecv] at h
+    split at h
+    · split at h
+      · exact nomatch h
+      split at h
+      · exact nomatch h
+      split at h
+      · exact nomatch h
+      split at h
+      · exact nomatch h
+      injection h with h; subst h; rfl
+    · injection h with h; subst h; rfl
+  | unsent c =>
+    apply same
+    simp only [step, stepUnsent] at h
+    split at h
+    · exact nomatch h
+    split at h
+    · exact nomatch h
+    injection h with h; subst h; rfl
+  | nodeDown n => apply same; simp only [step] at h; injection h with h; subst h; rfl
+  | mig m =>
+    apply same
+    simp only [step] at h
+    split at h
+    · injection h with h; subst h; rfl
+    · exact nomatch h
+  | snapshot => apply same; simp only [step] at h; injection h with h; subst h; rfl
+  | install =>
+    apply same
+    simp only [step] at h
+    split at h
+    · injection h with h; subst h; rfl
+    · exact nomatch h
+  | refreshNow => apply same; simp only [step] at h; injection h with h; subst h; rfl
+  | restart =>
+    simp only [step, stepRestart] at h
+    split at h
+    · exact nomatch h
+    split at h
+    · exact nomatch h
+    injection h with h; subst h
+    intro b cs hm; simp at hm
+
+theorem BatchesSorted_run : ∀ (evs : List Ev) (s s' : St), Inv slotOf s → BatchesSorted s →
+    QuietRun slotOf s evs → run slotOf s evs = .ok s' → BatchesSorted s' := by
+  intro evs
+  induction evs with
+  | nil => intro s s' _ hb _ h; simp only [run] at h; injection h with h; subst h; exact hb
+  | cons e es ih =>
+    intro s s' hi hb hq h
+    simp only [run] at h
+    split at h
+    · rename_i s1 hs1
+      obtain ⟨hq1, hq2⟩ := hq
+      exact ih s1 s' (Inv_step slotOf hi hq1 hs1) (BatchesSorted_step slotOf hi hb hs1) (hq2 s1 hs1) h
+    · exact nomatch h
+end
+end GunYu.ClusterRoute
